@@ -66,8 +66,16 @@ def special_polygons(rnd, g):
         pts = [(x - 0.4, y - 0.4), (x + w + 0.4, y - 0.4), (x + w + 0.4, y + h + 0.4), (x - 0.4, y + h + 0.4)]
     elif k == 8:
         # a sliver whose vertices lie near one arc of a large circle without going around it
-        ww, hh = rnd.randrange(8, 15), rnd.randrange(1, 3)
-        pts = [(x, y), (x + ww // 2, y), (x + ww, y), (x + ww, y + hh), (x, y + hh)]
+        if rnd.random() < 0.5:
+            ww, hh = rnd.randrange(8, 15), rnd.randrange(1, 3)
+            pts = [(x, y), (x + ww // 2, y), (x + ww, y), (x + ww, y + hh), (x, y + hh)]
+        else:
+            # a crescent: 7-9 vertices on a 40-55 degree arc of a circle of radius 20-30, closed by the chord
+            R_ = rnd.choice([20.0, 25.0, 30.0])
+            n_ = rnd.randrange(7, 10)
+            span = math.radians(rnd.uniform(40, 55))
+            a0_ = rnd.uniform(0, 2 * math.pi)
+            pts = [(x + R_ * math.cos(a0_ + span * i_ / (n_ - 1)), y + R_ * math.sin(a0_ + span * i_ / (n_ - 1))) for i_ in range(n_)]
     elif k == 7:
         # rectilinear with an odd number of vertices: the first vertex sits in the middle of an edge
         pts = [(x + w // 2 + 1, y), (x + w + 2, y), (x + w + 2, y + h), (x, y + h), (x, y)]
@@ -88,7 +96,7 @@ def special_polygons(rnd, g):
 def make_case(i, flagbits):
     sd = vfw.seed() * 1000003 + 20000 + i
     rnd = random.Random(sd)
-    g = genlib.Gen(sd, dict(oas_props=True, gds_props=True, nonsimple=False, round_ends=False, label_transform=False, max_tag=2 ** 32 - 1,
+    g = genlib.Gen(sd, dict(oas_props=True, gds_props=True, nonsimple=rnd.random() < 0.3, round_ends=False, label_transform=False, max_tag=2 ** 32 - 1,
                             ext_neg=rnd.random() < 0.5))
     lib = g.library()
     grid = lib['precision'] / lib['unit']
@@ -115,6 +123,20 @@ def make_case(i, flagbits):
     tol = rnd.choice([0.0, 0.0, 0.5, 1.0, 2.0]) * grid
     c = Case('O%d' % i, timeout=120)
     genlib.emit_library(c, lib)
+    # outlines of the paths that are not simple (they are written as polygons; what the outline should be is C07/C08's subject)
+    fi = ri = 0
+    want = []
+    for ci, cell in enumerate(lib['cells']):
+        for pi, fp in enumerate(cell['fpaths']):
+            if not fp['simple']:
+                c.op('to_polygons', 'f%d' % fi)
+                want.append((ci, 'f', pi, 'f%d' % fi))
+            fi += 1
+        for pi, rp_ in enumerate(cell['rpaths']):
+            if not rp_['simple']:
+                c.op('to_polygons', 'r%d' % ri)
+                want.append((ci, 'r', pi, 'r%d' % ri))
+            ri += 1
     c.op('write_oas', 'l0', 'f1.oas', fl(tol), level, flags)
     c.op('filehex', 'f1.oas')
     c.op('oas_validate', 'f1.oas')
@@ -128,8 +150,21 @@ def make_case(i, flagbits):
         c.op('write_oas', 'l2', 'f3.oas', fl(tol), level, flags)
         c.op('read_oas', 'f3.oas', fl(lib['unit']), fl(0.0))
         c.op('dump_lib', 'l3')
-    c.meta = {'seed': sd, 'lib': lib, 'flags': flags, 'level': level, 'tol': tol, 'third': third, 'grid': grid}
+    c.meta = {'seed': sd, 'lib': lib, 'want': want, 'flags': flags, 'level': level, 'tol': tol, 'third': third, 'grid': grid}
     return c
+
+
+def outlines_of(chk, c, evs):
+    """{(cell index, 'f'|'r', path index): [(tag, points)]} for the paths that are not simple, from the to_polygons events of the case"""
+    outl = {}
+    tp = {e['h']: e for e in evs if e['op'] == 'to_polygons' and e.get('k') != 'call'}
+    for ci, kind, pi, h in c.meta.get('want', []):
+        e = tp.get(h)
+        if e is None:
+            chk.harness_error('%s: no outline for %s' % (c.id, h))
+            return None
+        outl[(ci, kind, pi)] = [((p['layer'], p['type']), [(p['pts'][k], p['pts'][k + 1]) for k in range(0, len(p['pts']), 2)]) for p in e['polys']]
+    return outl
 
 
 def judge(chk, c, evs, flagbits):
@@ -154,7 +189,12 @@ def judge(chk, c, evs, flagbits):
         if r['err'] not in (0, 4):          # MissingReference is expected for references to cells that are not in the library
             chk.violation('C02/read/error-code', 'read_oas (cycle %d) returned %d' % (k + 1, r['err']), rp)
             return
-    exp = oasmodel.from_spec(m['lib'])
+    outl = outlines_of(chk, c, evs)
+    if outl is None:
+        return
+    exp = oasmodel.from_spec(m['lib'], outl)
+    if outl:
+        chk.cov('cases_with_non_simple_paths')
     grid_u = m['grid']
     circ = None
     if m['tol'] > 0:
